@@ -1,7 +1,7 @@
 #!/bin/bash
 # creates a scratch worktree of /repo for a seeded-break sub-agent, with a warm copy of the build directory
 id="$1"
-d="/tmp/seed-$id"
+d="/tmp/$id"
 [ -d "$d" ] && { echo "exists $d"; exit 0; }
 git -C /repo worktree add -q --detach "$d" HEAD || exit 1
 cp -a /repo/target "$d/target"
